@@ -13,6 +13,11 @@ TEMPLATE = np.array([[0.0, 0.0], [12.0, 3.0], [5.0, 14.0]])
 # per-frame drift for C10 (1-2 px per frame, different direction per animal)
 DRIFT = {"A": (1.0, 0.5), "B": (-1.5, 1.0), "C": (0.5, -2.0)}
 
+# "fast" scenario (C10, distance scoring only): animals 100 px apart in y, all moving +30 px/frame in x, so that the
+# cumulative displacement exceeds the separation within 4 frames while each step stays well below it
+FAST_BASE = {"A": (50.0, 60.0), "B": (50.0, 160.0), "C": (50.0, 260.0)}
+FAST_STEP = (30.0, 0.0)
+
 _SKEL = None
 
 
@@ -29,10 +34,14 @@ def make_instance(animal, frame, drift=False, score=0.9, nan=None):
     """nan: None | 'p' (node 1 missing) | 'n' (every node missing)."""
     import sleap_io as sio
 
-    bx, by = BASE[animal]
-    if drift:
-        dx, dy = DRIFT[animal]
-        bx, by = bx + dx * frame, by + dy * frame
+    if drift == "fast":
+        bx, by = FAST_BASE[animal]
+        bx, by = bx + FAST_STEP[0] * frame, by + FAST_STEP[1] * frame
+    else:
+        bx, by = BASE[animal]
+        if drift:
+            dx, dy = DRIFT[animal]
+            bx, by = bx + dx * frame, by + dy * frame
     pts = TEMPLATE + np.array([bx, by])
     if nan == "p":
         pts[1] = np.nan
@@ -46,7 +55,20 @@ def make_instance(animal, frame, drift=False, score=0.9, nan=None):
 _XS = [(BASE[a][0] + 6.0, a) for a in ANIMALS]
 
 
+_YS = [(FAST_BASE[a][1] + 5.0, a) for a in ANIMALS]
+MODE = {"fast": False}
+
+
 def which_animal(feat):
+    if MODE["fast"]:
+        y = float(np.asarray(feat).flat[1])
+        if y != y:
+            return "?"
+        return min(_YS, key=lambda t: abs(t[0] - y))[1]
+    return _which_animal_x(feat)
+
+
+def _which_animal_x(feat):
     """Identify the animal from a feature / keypoint array: its first element is an x coordinate within
     ~20 px of the animal's base x (bases are >= 90 px apart in x, drift <= 2 px/frame)."""
     x = float(np.asarray(feat).flat[0])
